@@ -191,6 +191,18 @@ func checkStructureOn(name string, g *oracle.G, gr graph.Graph, bounds []int, co
 	if fmt.Sprint(sortedSets(ccs)) != fmt.Sprint(sortedSets(comps)) {
 		return fail("ConnectedComponents = %v want %v", ccs, comps)
 	}
+	// the lists returned belong to the caller: overwrite them and ask again
+	for _, c := range ccs {
+		for i := range c {
+			c[i] = -1
+		}
+	}
+	if p = try(func() { ccs = graph.ConnectedComponents(gr) }); p != nil {
+		return fail("ConnectedComponents (second call) panicked: %v", p)
+	}
+	if fmt.Sprint(sortedSets(ccs)) != fmt.Sprint(sortedSets(comps)) {
+		return fail("ConnectedComponents = %v (want %v) after the caller overwrote the result of an earlier call", ccs, comps)
+	}
 	// blocks and articulation vertices
 	var wantBlocks [][]int
 	var wantArt []int
@@ -214,6 +226,20 @@ func checkStructureOn(name string, g *oracle.G, gr graph.Graph, bounds []int, co
 	}
 	if !eqInts(oracle.SortedCopy(art), wantArt) {
 		return fail("BiconnectedComponents articulation vertices = %v want %v (no repeats)", art, wantArt)
+	}
+	for _, b := range blocks {
+		for i := range b {
+			b[i] = -1
+		}
+	}
+	for i := range art {
+		art[i] = -1
+	}
+	if p = try(func() { blocks, art = graph.BiconnectedComponents(gr) }); p != nil {
+		return fail("BiconnectedComponents (second call) panicked: %v", p)
+	}
+	if fmt.Sprint(sortedSets(blocks)) != fmt.Sprint(sortedSets(wantBlocks)) || !eqInts(oracle.SortedCopy(art), wantArt) {
+		return fail("BiconnectedComponents = %v, %v (want %v, %v) after the caller overwrote the result of an earlier call", blocks, art, wantBlocks, wantArt)
 	}
 	if !counts {
 		return nil
